@@ -217,3 +217,60 @@ func ZZ_C03_I4() {
 	n.end()
 	zzverif.Reach("I4 end")
 }
+
+// ZZ_C03_I5: "fails without effect", relationally.  Twin replicas; replica B's
+// block 3 starts with a forged transaction (a menu transaction signed with
+// another account's key), then both replicas deliver the same honest menu
+// transaction.  Everything observable afterwards - the honest transaction's
+// result, validator updates, application hashes of blocks 3 and 4 - must be
+// the same as on the replica that never saw the forged transaction.
+// 4 validators: the stake limiter (per-block mutable state) is active.
+func ZZ_C03_I5() {
+	govp := ctrlertypes.Test1GovParams()
+	g := zzNewGenesisBanded(5, 4, govp)
+	a, b := g.start(), g.start()
+	for _, n := range []*zzNode{a, b} {
+		n.emptyBlock(0)
+		n.emptyBlock(0)
+	}
+	forged := zzSimpleTx(b, "forged", 0)
+	forged.signer = (forged.from + 1) % 5
+	toStranger := false
+	if forged.typ == ctrlertypes.TRX_TRANSFER && zzverif.Choose("forged.to.fresh.address", 2) == 1 {
+		forged.to, toStranger = -2, true
+	}
+	rawF := b.encode(forged)
+	honest := zzSimpleTx(a, "honest", 0)
+	rawH := a.encode(honest)
+	next := zzSimpleTx(a, "next", 0)
+	if next.from == honest.from {
+		next.nonce = 1
+	}
+	rawN := a.encode(next)
+	run := func(n *zzNode, raws ...[]byte) *zzBlockOut {
+		out := &zzBlockOut{}
+		n.begin(0, nil, nil)
+		for _, raw := range raws {
+			r := n.app.DeliverTx(abcitypes.RequestDeliverTx{Tx: raw})
+			out.codes, out.gasUsed = append(out.codes, r.Code), append(out.gasUsed, r.GasUsed)
+		}
+		e := n.app.EndBlock(abcitypes.RequestEndBlock{Height: n.height})
+		out.ups = e.ValidatorUpdates
+		out.hash = n.app.Commit().Data
+		return out
+	}
+	oa3 := run(a, rawH)
+	ob3 := run(b, rawF, rawH)
+	zzverif.Assert(ob3.codes[0] != 0, "I5 the forged transaction is rejected")
+	ob3.codes, ob3.gasUsed = ob3.codes[1:], ob3.gasUsed[1:]
+	// known finding C03-K1: the receiver account of a transaction is created (and
+	// committed) before the transaction is validated, so a rejected transaction to
+	// an address without account leaves an empty account record behind
+	// (a deployment is addressed to the zero address, which has no account on a fresh chain)
+	zzverif.Known("C03-K1", toStranger || forged.to == -1)
+	zzSameOut(oa3, ob3, "I5 block with a forged transaction in front")
+	oa4, ob4 := run(a, rawN), run(b, rawN)
+	zzSameOut(oa4, ob4, "I5 block after a forged transaction")
+	zzverif.Known("C03-K1", false)
+	zzverif.Reach("I5 end")
+}
